@@ -73,8 +73,12 @@ def oracle(ctx, stream, case_lines, rep):
         cands.append(g)
     for ops in cands:
         out = ops + ".verdict"
+        if os.path.exists(out):
+            os.remove(out)
         rc, log = ctx.harness("oracle", stream, ops, out)
         if rc != 0 or not os.path.exists(out):
+            ctx.log("oracle run for stream %s failed (rc=%s): %s" % (stream, rc, log[-500:]))
+            ctx.count("oracle.failed-runs")
             continue
         verdicts = ctx.read_lines(out)
         for i, v in enumerate(verdicts):
@@ -151,6 +155,16 @@ def run(ctx):
         "responses) is not proved",
         "gRPC framing and the stream goroutines (select loop of Stream / StreamDeltas, channel hand-over) are outside the model; "
         "Send / sendDelta are modelled by their watch update; generators are abstract (any answer) in the theorems and scripted in the tie",
+        "features.EnableUnsafeAssertions is off (production default): the panic in shouldRespondDelta's 'subscribed resources check "
+        "mismatch' branch is not modelled and not executed",
+        "delta trace theorems assume ReqsOK: initial_resource_versions only on the first request of a type on a stream (the single-step "
+        "theorems and the streams delta / dproc / denum cover later ones); dloop requests carry none",
+        "recv requests carry no resource names and no nonce; sloop scenarios are scripted (8 per run)",
+        "computeProxyState runs on the real server in sloop / recv and, for non-Endpoints pushes, on the bare server of proc / dproc "
+        "(where it recomputes nothing: no Env); its effect on what is generated is outside this property (C01 / C06)",
+        "the no-loop bounds count responses that go out; answer ATTEMPTS (generator calls) are bounded only indirectly: every "
+        "attempt consumes one request, and in a quiet tail every new request is the ACK of a delivered response - a watch with an "
+        "empty NonceSent and k queued ACKs costs k generator calls and no response (not stated as a theorem)",
         "recv: the outcome of handling debug / unknown / empty type URLs is that of the production generators for a plaintext and "
         "for an authenticated client (table procClass, tied on every run)",
         "delta_trace_record / dloop_quiescent_record_matches are about NAMED types (EDS, RDS, SDS, ECDS): for wildcard types every "
@@ -159,6 +173,9 @@ def run(ctx):
         "treats it as an observation: answering with exactly the re-subscribed names would be accepted",
     ]
     ctx.trusted.append("pilot/pkg/xds/zz_verif_c04.go (verif-tagged accessors for shouldRespondDelta, sendDelta)")
+    ctx.trusted.append("pilot/test/xds.FakeDiscoveryServer (the real DiscoveryServer of streams recv / sloop is built by this test helper)")
+    ctx.trusted.append("harness/c04/types.go: go/parser extraction of the type-URL constants from pkg/model/xds.go, pilot/pkg/xds/v3/model.go, "
+                       "pilot/pkg/xds/statusgen.go (a constant declared elsewhere would be missed)")
     ctx.trusted.append("pilot/pkg/xds/zz_verif_c03.go (processRequest, processDeltaRequest, pushConnection, pushConnectionDelta on a bare server), "
                        "pkg/xds/zz_verif_c04b.go + pilot/pkg/xds/zz_verif_c04b.go (Receive / receiveDelta run to completion, recover() around them)")
     # the harness first: the table of the real per-type predicates is an input of the proof (GenTie.lean)
@@ -192,6 +209,8 @@ def run(ctx):
     # both tiers, delta reduced in the quick tier and complete in the thorough tier (the harness reads VERIF_TIER)
     ctx.diff_stream("enum", 10 ** 9, oracle=oracle)
     ctx.diff_stream("denum", 10 ** 9, oracle=oracle)
+    # bounded-exhaustive MULTI-step enumeration: all 2-step (thorough: SotW all 3-step) sequences over a tiny alphabet
+    ctx.diff_stream("enum2", 10 ** 9, oracle=oracle)
     # the REAL event loops xds.Stream / StreamDeltas on a real DiscoveryServer through fake gRPC streams: a failing request
     # ends the stream, every push reaches the connection (pushEv.done), Context().Done(), EOF
     ctx.diff_stream("sloop", 8, oracle=oracle)
@@ -206,14 +225,27 @@ def run(ctx):
         "cases_this_run": {k: ctx.streams.get(k, {}).get("cases", 0) for k in ("enum", "denum")},
     }
     # the oracle also runs on every generated case (second line, independent of the model)
-    for stream in ("sotw", "delta", "warm", "loop", "proc", "dproc", "recv", "dloop", "enum", "denum", "types", "tproc", "sloop"):
+    for stream in ("sotw", "delta", "warm", "loop", "proc", "dproc", "recv", "dloop", "enum", "denum", "enum2", "types", "tproc", "sloop"):
         g = os.path.join(ctx.work, "%s.gen.ops" % stream)
         if os.path.exists(g):
             out = g + ".verdict"
+            if os.path.exists(out):
+                os.remove(out)
             rc, log = ctx.harness("oracle", stream, g, out)
+            if rc != 0 or not os.path.exists(out):
+                # an oracle run that dies is reported, never skipped: the second line of defence did not run
+                ctx.tie_broken("oracle-run:%s" % stream, "harness `oracle %s` failed (rc=%s) on the generated cases:\n%s"
+                               % (stream, rc, log[-3000:]))
+                continue
             if rc == 0 and os.path.exists(out):
                 bad = [v for v in ctx.read_lines(out) if v.startswith("FAIL")]
                 ctx.count("oracle.%s.cases" % stream, len(ctx.read_lines(out)))
+                # per clause / class / type / nonce-kind counts of what the oracle judged
+                if os.path.exists(out + ".stats"):
+                    for l in ctx.read_lines(out + ".stats"):
+                        k, _, v = l.rpartition(" ")
+                        if k and v.isdigit():
+                            ctx.count("oracle.%s.%s" % (stream, k), int(v))
                 if bad:
                     found = oracle(ctx, stream, ["case 0 %s" % stream], None)
                     if found:
@@ -267,18 +299,19 @@ MANIFEST = {
                    "universe: the model's per-type predicates are proved equal (decide, table regenerated every run) to the real ones on "
                    "every type-URL constant of the tree; every constant outside the ten modelled types has the predicate profile of NDS. "
                    "The model is tied to /repo on every run by a line-by-line differential against the real functions and handlers "
-                   "(12 streams, incl. an exhaustive single-step enumeration)."),
+                   "(14 streams, incl. exhaustive single-step and bounded multi-step enumerations, every type-URL constant through the real handlers, the real Stream / StreamDeltas loops)."),
     "level_note": ("Trusted: Lean kernel + {propext, Classical.choice, Quot.sound}; the hand-written model, tied by differential testing "
                    "(~22000 cases quick, ~350000 thorough); the verif-tagged accessor files pilot/pkg/xds/zz_verif_c04.go, zz_verif_c03.go, "
                    "zz_verif_c04b.go, pkg/xds/zz_verif_c04b.go; the history-keyed Go oracle (a second, independent statement of the clauses). "
                    "Assumed: Envoy / ztunnel is the conformant client of Protocol.lean / DeltaProtocol.lean. The closed loops (loop, dloop) "
                    "compose the real ShouldRespond / Send / shouldRespondDelta / sendDelta with a model client; the real handlers and "
-                   "generators run in proc / dproc / recv on scripted request sequences, not inside a closed loop. Not modelled / not "
-                   "executed: gRPC framing, the select loop and goroutines of Stream / StreamDeltas (interleaving is by schedule of the "
-                   "model), computeProxyState (pushes are Endpoints-only on a bare server), findGenerator's metadata / proxy-type keyed "
-                   "lookups, agentgateway collections, LastSendTime; recv requests carry no names / nonce / initial versions; dloop has no "
-                   "initial_resource_versions; the loop stream drives one type per case (CDS->EDS warming through the real "
-                   "NewWatchedResource is in sotw / warm / proc). Not proved: a response bound for schedules in which the environment keeps "
+                   "generators run in proc / dproc / tproc / recv on scripted request sequences and in sloop inside the real Stream / "
+                   "StreamDeltas loops (8 scripted scenarios), not inside a generated closed loop. Not modelled: gRPC framing; the "
+                   "interleaving of requests and pushes is the order of the model's event list (Go's select picks one). Not executed: "
+                   "findGenerator's metadata / proxy-type keyed lookups, agentgateway collections, LastSendTime, the effect of "
+                   "computeProxyState on generation; recv requests carry no names / nonce / initial versions; dloop has no "
+                   "initial_resource_versions; loop / dloop run one closed loop per case (other types act through the real "
+                   "ShouldRespond as environment steps). Not proved: a response bound for schedules in which the environment keeps "
                    "acting; the record of delta WILDCARD types at trace level (it follows what pushes carry: property C03; here only 'the "
                    "record is what the last response carried' and 'a removed resource leaves the record'). Observation, not a clause: a delta "
                    "re-subscription of names already on record is not answered by /repo (the protocol would allow re-sending them)."),
